@@ -14,7 +14,7 @@ import json
 import xml.etree.ElementTree as ET
 
 ID = "C03"
-COQ_TARGETS = ["Offsets.vo", "OffsetsProofs.vo", "CorrC03.vo", "Props/C03.vo"]
+COQ_TARGETS = ["Offsets.vo", "OffsetsProofs.vo", "CorrC03.vo", "DocOffsets.vo", "DocOffsetsProofs.vo", "DocDeterminism.vo", "Props/C03.vo"]
 PROPS_FILE = "Props/C03.v"
 CORR_IMPORTS = "Base Offsets CorrC03"
 ENTRY = ("cassis.cas.Utf16CodepointOffsetConverter / Sofa.__attrs_post_init__ / Sofa.sofaString setter / "
